@@ -14,6 +14,7 @@ import (
 	assettypes "github.com/comdex-official/comdex/x/asset/types"
 	auctypes "github.com/comdex-official/comdex/x/auctionsV2/types"
 	esmtypes "github.com/comdex-official/comdex/x/esm/types"
+	liqv1types "github.com/comdex-official/comdex/x/liquidation/types"
 	liqtypes "github.com/comdex-official/comdex/x/liquidationsV2/types"
 	markettypes "github.com/comdex-official/comdex/x/market/types"
 	vaulttypes "github.com/comdex-official/comdex/x/vault/types"
@@ -59,7 +60,15 @@ type Config struct {
 	FundDebt                   int64 // fixture-minted debt coins per user (bidders), recorded as fixtureMint
 	Interest                   bool  // register app in rewards so that stability-fee interest accrues
 	Bonus                      Frac  // auction bonus of externally initiated auctions
+	// first-generation ("V1") liquidation + Dutch auction parameters; zero values = defaults (same batch/duration as V2, buffer 6/5, cusp 7/10)
+	BatchV1    uint64
+	DurationV1 uint64
+	BufferV1   Frac
+	CuspV1     Frac
 }
+
+// V1DutchMappingID is the auction mapping id under which the fixture registers V1 Dutch auctions (AuctionParams.DutchId).
+const V1DutchMappingID = 3
 
 type World struct {
 	*sim.Env
@@ -70,6 +79,7 @@ type World struct {
 	Decs        map[string]int64
 	Denoms      []string
 	FixtureMint int64
+	V1Bias      bool // driver bias: this run lets the first generation do most of the liquidating
 }
 
 var AllDenoms = []string{"ucm", "uat", "ust", "uus", "uhb"}
@@ -126,6 +136,18 @@ func (w *World) addProduct(name string, pair uint64, p Product) Product {
 
 // Setup builds the CDP fixture through exported keeper entry points only.
 func Setup(cfg Config) *World {
+	if cfg.BatchV1 == 0 {
+		cfg.BatchV1 = cfg.Batch
+	}
+	if cfg.DurationV1 == 0 {
+		cfg.DurationV1 = cfg.Duration
+	}
+	if cfg.BufferV1.Den == 0 {
+		cfg.BufferV1 = Frac{6, 5}
+	}
+	if cfg.CuspV1.Den == 0 {
+		cfg.CuspV1 = Frac{7, 10}
+	}
 	var funds []sim.Fund
 	for _, u := range cfg.Users {
 		funds = append(funds, sim.Fund{Name: u})
@@ -181,6 +203,11 @@ func Setup(cfg Config) *World {
 		WithdrawalFee: sdk.ZeroDec(), ClosingFee: sdk.ZeroDec(), MinUsdValueLeft: 0, BidFactor: sdk.MustNewDecFromStr("0.1"),
 		LiquidationPenalty: sdk.MustNewDecFromStr("0.1"), AuctionBonus: cfg.Bonus.Dec()})
 	w.App.NewliqKeeper.SetParams(w.Ctx, liqtypes.Params{LiquidationBatchSize: cfg.Batch})
+	// first generation: app whitelisted for x/liquidation, Dutch auction parameters of x/auction (as the repository's own tests do)
+	must(w.App.LiquidationKeeper.WasmWhitelistAppIDLiquidation(w.Ctx, w.App1))
+	w.App.LiquidationKeeper.SetParams(w.Ctx, liqv1types.Params{LiquidationBatchSize: cfg.BatchV1})
+	must(w.App.AuctionKeeper.AddAuctionParams(w.Ctx, &bindings.MsgAddAuctionParams{AppID: w.App1, AuctionDurationSeconds: cfg.DurationV1,
+		Buffer: cfg.BufferV1.Dec(), Cusp: cfg.CuspV1.Dec(), Step: 1, PriceFunctionType: 1, SurplusID: 1, DebtID: 2, DutchID: V1DutchMappingID, BidDurationSeconds: 300}))
 	if cfg.Interest {
 		must(w.App.Rewardskeeper.WhitelistAppIDVault(w.Ctx, w.App1))
 	}
@@ -315,6 +342,27 @@ func (w *World) Project() map[string]interface{} {
 			"collA": a.CollateralAssetId, "debtA": a.DebtAssetId, "nbids": len(a.BiddingIds)})
 	}
 	st["auctions"] = aucs
+	// first generation: locked vaults of x/liquidation, Dutch auctions of x/auction
+	l1 := []interface{}{}
+	for _, l := range app.LiquidationKeeper.GetLockedVaults(ctx) {
+		l1 = append(l1, map[string]interface{}{"id": l.LockedVaultId, "app": l.AppId, "orig": l.OriginalVaultId, "prod": l.ExtendedPairId, "owner": who(l.Owner),
+			"in": i64(l.AmountIn), "out": i64(l.AmountOut), "fees": i64(l.InterestAccumulated), "prog": l.IsAuctionInProgress, "done": l.IsAuctionComplete})
+	}
+	st["lockedV1"] = l1
+	a1 := []interface{}{}
+	for _, a := range app.AuctionKeeper.GetDutchAuctions(ctx, w.App1) {
+		a1 = append(a1, map[string]interface{}{"id": a.AuctionId, "app": a.AppId, "lv": a.LockedVaultId, "map": a.AuctionMappingId,
+			"collInit": i64(a.OutflowTokenInitAmount.Amount), "collLeft": i64(a.OutflowTokenCurrentAmount.Amount), "collD": a.OutflowTokenCurrentAmount.Denom,
+			"debtGot": i64(a.InflowTokenCurrentAmount.Amount), "target": i64(a.InflowTokenTargetAmount.Amount), "debtD": a.InflowTokenTargetAmount.Denom,
+			"price": decL(a.OutflowTokenCurrentPrice), "init": decL(a.OutflowTokenInitialPrice), "endp": decL(a.OutflowTokenEndPrice),
+			"inPrice": a.InflowTokenCurrentPrice.TruncateInt64(), "start": a.StartTime.Unix() - sim.GenesisTime.Unix(), "end": a.EndTime.Unix() - sim.GenesisTime.Unix(),
+			"status": int64(a.AuctionStatus), "owner": who(a.VaultOwner.String()), "nbids": len(a.BiddingIds), "collA": a.AssetOutId, "debtA": a.AssetInId})
+	}
+	st["auctionsV1"] = a1
+	off1, _ := app.LiquidationKeeper.GetLiquidationOffsetHolder(ctx, w.App1, liqv1types.VaultLiquidationsOffsetPrefix)
+	st["offsetV1"] = off1.CurrentOffset
+	st["lockedV1next"] = app.LiquidationKeeper.GetLockedVaultID(ctx)
+	st["auctionV1next"] = app.AuctionKeeper.GetAuctionID(ctx)
 	nf := []interface{}{}
 	for _, p := range w.Prods {
 		_ = p
@@ -378,7 +426,8 @@ func (w *World) ConfigJSON() map[string]interface{} {
 		ps = append(ps, p)
 	}
 	return map[string]interface{}{"prods": ps, "decs": w.Decs, "assets": w.Assets, "batch": w.Cfg.Batch, "duration": w.Cfg.Duration,
-		"users": w.Cfg.Users, "app": w.App1, "premium": Frac{6, 5}, "discount": Frac{7, 10}, "keeperIncentive": Frac{1, 10}, "interest": w.Cfg.Interest, "bonus": w.Cfg.Bonus, "extPenalty": Frac{1, 10}}
+		"users": w.Cfg.Users, "app": w.App1, "premium": Frac{6, 5}, "discount": Frac{7, 10}, "keeperIncentive": Frac{1, 10}, "interest": w.Cfg.Interest, "bonus": w.Cfg.Bonus, "extPenalty": Frac{1, 10},
+		"v1": map[string]interface{}{"batch": w.Cfg.BatchV1, "duration": w.Cfg.DurationV1, "buffer": w.Cfg.BufferV1, "cusp": w.Cfg.CuspV1, "dutchMap": V1DutchMappingID}}
 }
 
 var _ = time.Second
